@@ -39,8 +39,9 @@ STUB = ["clock (csv.datetime replaced by a subclass whose now() reads the "
         "(os.chdir into drawn sub-directories)", "operation scheduler",
         "reference store model"]
 ASSUMPTIONS = [
-    "text cells are non-empty, single-line, without leading/trailing blanks "
-    "and not re-typable by pandas (no pure numerals, booleans, NA tokens)",
+    "text cells are non-empty and single-line; every text column holds at "
+    "least one cell that pandas cannot re-type (numeral-looking cells occur "
+    "beside ordinary text; no booleans or NA tokens)",
     "comment keys [a-z0-9_]{1,25} not colliding with generated keys; values "
     "single-line strings without leading/trailing blanks and without a run of "
     "10 dashes",
@@ -65,7 +66,9 @@ VALS = ["simple", "with: colon", "a:b:c", "url http://x.y/z?q=1", "# hash",
         "time 12:30:05", "k : v", "Version 2.1 (beta)", "x" * 40,
         "dashes -- two", "comma, separated", "tab\tinside", "100%", ":lead",
         "trail:", "tooling in C#", "see issue #", "# starts with hash",
-        "ends with dash -", "(parenthesised)", "quote \" inside"]
+        "ends with dash -", "(parenthesised)", "quote \" inside",
+        # numbers and flags given as such (they come back as text)
+        0, 7, 0.0, 2.5, False, True]
 FORMATS = ["%0.5f", "%0.2f", "%0.8f", "%0.12f", "%.6e", "%0.3f"]
 MODES = ["plain", "zip_csv", "zip_zip", "zip_noext", "member"]
 
@@ -98,8 +101,53 @@ def gen_colname(cs, lab, used):
     return s
 
 
+NUMLIKE = ["007", "12", "1e5", "3.50", "-4", "000123"]
+
+
+def gen_long_frame(cs, lab):
+    """Frames of about ten to twenty thousand rows (cells from one seeded
+    generator, not one draw each).  The text column holds numeral-looking
+    identifiers in one long stretch and ordinary text elsewhere: as a whole it
+    is text, whatever a block of it looks like."""
+    import pandas as pd
+    nrow = cs.choice(lab + ".lnrow", [10001, 12000, 20001, 9999, 16385])
+    rs = np.random.RandomState(cs.draw(lab + ".lseed", 1 << 30))
+    ncol = cs.between(lab + ".lncol", 1, 3)
+    used = set()
+    cols = [gen_colname(cs, f"{lab}.ln{j}", used) for j in range(ncol)]
+    kinds = ["text"] + [cs.choice(f"{lab}.lk{j}", ["float", "int"])
+                        for j in range(1, ncol)]
+    pattern = cs.choice(lab + ".lpat", ["numerals_first", "numerals_last",
+                                        "all_text"])
+    cut = cs.choice(lab + ".lcut", [10000, 10500, nrow - 1, 8192])
+    cut = min(cut, nrow - 1)
+    data, cells = {}, {}
+    for c, k in zip(cols, kinds):
+        if k == "text":
+            ids = [f"{i:06d}" for i in range(nrow)]
+            txt = [f"st_{i}" for i in range(nrow)]
+            if pattern == "numerals_first":
+                vals = ids[:cut] + txt[cut:]
+            elif pattern == "numerals_last":
+                vals = txt[:nrow - cut] + ids[nrow - cut:]
+            else:
+                vals = txt
+            data[c] = vals
+        elif k == "float":
+            vals = [float(v) for v in (rs.uniform(-1000, 1000, nrow))]
+            data[c] = np.array(vals, dtype=np.float64)
+        else:
+            vals = [int(v) for v in rs.randint(-10 ** 6, 10 ** 6, nrow)]
+            data[c] = np.array(vals, dtype=np.int64)
+        cells[c] = vals
+    df = pd.DataFrame(data, columns=cols)
+    return df, {"cols": cols, "kinds": kinds, "cells": cells, "nrow": nrow}
+
+
 def gen_frame(cs, lab):
     import pandas as pd
+    if cs.flip(lab + ".long", 2):
+        return gen_long_frame(cs, lab)
     nrow = cs.weighted(lab + ".nrow", [(1, 2), (2, 2), (5, 3), (17, 2),
                                        (40, 1)])
     ncol = cs.between(lab + ".ncol", 1, 6)
@@ -153,6 +201,13 @@ def gen_frame(cs, lab):
                 vals.append(int(v))
             else:
                 vals.append(TEXTS[cs.draw(l2 + ".t", len(TEXTS))])
+        if k == "text" and nrow > 1 and cs.flip(f"{lab}.v{j}.numlike", 25):
+            # numeral-looking cells beside ordinary text: the column as a
+            # whole is still text (the first cell stays as drawn)
+            for r in range(1, nrow):
+                if cs.flip(f"{lab}.v{j}.{r}.nl", 50):
+                    vals[r] = NUMLIKE[cs.draw(f"{lab}.v{j}.{r}.nlv",
+                                              len(NUMLIKE))]
         cells[c] = vals
         if k == "float":
             data[c] = np.array(vals, dtype=np.float64)
@@ -230,7 +285,10 @@ def compare(df, comment, rec, where, opkind):
         if k not in comment:
             bad("comment_lost", f"key {k!r} missing; got keys "
                 f"{sorted(comment)}")
-        if comment[k] != v:
+        same = comment[k] == v if isinstance(v, str) else \
+            (comment[k] == str(v) or (type(comment[k]) is type(v) and
+                                      comment[k] == v))
+        if not same:
             bad("comment_changed", f"{k!r}: {comment[k]!r} != {v!r}")
     if str(comment.get("nrow")) != str(fm["nrow"]) or \
             str(comment.get("ncol")) != str(len(fm["cols"])):
@@ -552,6 +610,16 @@ class World:
                for c, k in zip(cols, kinds)) and \
                 not any(k in ("int", "text") for k in kinds):
             return        # a row of NaN only would be a blank line
+        def numeral(v):
+            try:
+                float(v)
+                return True
+            except (TypeError, ValueError):
+                return False
+        if any(k == "text" and all(numeral(v) for v in cells[c])
+               for c, k in zip(cols, kinds)):
+            return        # the kept rows of a text column all look like
+            #               numbers: as a column of its own it is not text
         comment = gen_comment(cs, "cm2")
         fmt = cs.choice("fmt", FORMATS)
         self.nname += 1
